@@ -10,7 +10,7 @@
    inverse W characterised by W * S_BB = I = S_BB * W ([is_inverse]).  None models a Python exception. *)
 From Coq Require Import List Bool Arith ZArith QArith Qcanon.
 From PV Require Import Base.Graph Base.Matrix C20.Model C20.Spec C20.ProofsIdx C20.ProofsJoint
-  C20.ProofsFit C20.ProofsFill C20.Run C20.ProofsMain.
+  C20.ProofsFit C20.ProofsFill C20.ProofsCache C20.Run C20.ProofsMain.
 Import ListNotations.
 Local Open Scope nat_scope.
 
@@ -147,6 +147,19 @@ Theorem C20_canonical_roundtrip_partial : forall (K : fieldT), field_ok K ->
 Proof. exact canonical_roundtrip. Qed.
 Print Assumptions C20_canonical_roundtrip_partial.
 
+(* a GaussianDistribution OBJECT carries a lazily filled cache of its precision matrix.  After ANY sequence of
+   precision_matrix / to_canonical_factor / copy / marginalize / reduce / product / divide calls (Model.gstep,
+   in place or continuing with the returned object) the cache, when present, is the two-sided inverse of the
+   object's CURRENT covariance, and so is whatever precision_matrix returns next. *)
+Theorem C20_precision_cache_consistent : forall (K : fieldT), field_ok K ->
+  forall (steps : list (gstep K)) (o o' : gobj K),
+  cache_ok K o -> o_run K o steps = Some o' ->
+  cache_ok K o' /\
+  forall o'' P, o_precision K o' = Some (o'', P) ->
+    is_inverse (length (gcov (o_d o'))) P (gcov (o_d o')).
+Proof. exact cache_consistent. Qed.
+Print Assumptions C20_precision_cache_consistent.
+
 (* KNOWN FINDING canonical-marginalize-g: CanonicalDistribution.marginalize (Model.c_marginalize) computes the
    quadratic summand of the constant g' as h_Y^T K_YY h_Y; the marginal density requires h_Y^T K_YY^-1 h_Y
    (Spec.marg_quad).  The full statement "for every C, drop: the coded summand equals marg_quad for the inverse
@@ -259,6 +272,18 @@ Example C20_reduce_nonvacuous :
   match g_reduce QcF D [(3, q 7 1)] with
   | Some R => same_names (gvars R) [1; 4] && @veqb QcF 2 (gmean R) [q 0 1; q 1 1]
               && @meqb QcF 2 2 (gcov R) [[q 4 1; q (-4) 1]; [q (-4) 1; q 7 1]]
+  | None => false
+  end = true.
+Proof. vm_compute. reflexivity. Qed.
+
+(* cache filled, then a correlated variable marginalised, then the precision read again: it is the inverse of
+   the marginal covariance [[2]] -> [[1/2]], not the stale sub-block [[1]] of the old precision *)
+Example C20_cache_nonvacuous :
+  let D := mkGauss (K:=QcF) [3; 1] [q 1 1; q 2 1] [[q 2 1; q 1 1]; [q 1 1; q 1 1]] in
+  match o_run QcF (mkObj (K:=QcF) D None) [SPrec; SMarg [1]; SCopy] with
+  | Some o => match o_cache o, o_precision QcF o with
+              | None, Some (_, P) => @meqb QcF 1 1 P [[q 1 2]]
+              | _, _ => false end
   | None => false
   end = true.
 Proof. vm_compute. reflexivity. Qed.
